@@ -59,12 +59,15 @@ func (f *flow) take(n int32) {
 // add adds n bytes (positive or negative) to the flow control window.
 // It returns false if the sum would exceed 2^31-1.
 func (f *flow) add(n int32) bool {
-	remain := (1<<31 - 1) - f.n
-	if n > remain {
-		return false
+	// Note: "(1<<31 - 1) - f.n" wraps around in int32 when f.n is negative
+	// (a window shrunk below zero by SETTINGS_INITIAL_WINDOW_SIZE), so
+	// detect the overflow on the sum instead.
+	sum := f.n + n
+	if (sum > n) == (f.n > 0) {
+		f.n = sum
+		return true
 	}
-	f.n += n
-	return true
+	return false
 }
 
 func (f *flow) String() string {
